@@ -1,4 +1,5 @@
 import ChipFiring.Theory.EwdFull
+import ChipFiring.Theory.GoodOf
 /-
   C09 — The burning orientation is an acyclic certificate of the verdict.
   The orientation EWD returns is the direction predicate `red.st.dir G` of the final burn.
@@ -82,5 +83,15 @@ example : ∃ G : Graph 4, Graph.new 4 false [(0, 3, 3), (1, 2, 2), (2, 3, 1)] =
     ∃ r red, ewd G (fun _ => []) 1000 (Divisor.ofFn fun v => [-3, -1, -2, 6].getD v.1 0) false = some (.ok r) ∧
       r.red = some red ∧ r.verdict = false ∧ (List.finRange 4).map (red.st.indeg G) = [0, 2, 1, 3] := by
   refine ⟨_, rfl, _, _, rfl, rfl, by decide, by decide⟩
+
+/-- Headline form on connected graphs: the certificate without side conditions on the BFS -/
+theorem certificate_connected (G : Graph n) (hG : G.WF) (hc : G.Connected) (hint : Fin n → List (Fin n))
+    (fuel : Nat) (Dv : Divisor n) (opt : Bool) (r : EwdOut n) (red : Reduced n)
+    (h : ewd G hint fuel Dv opt = some (.ok r)) (hr : r.red = some red) :
+    ∃ q, r.q = some q ∧ OFull G (red.st.dir G) ∧ OAcyclic G (red.st.dir G) ∧ red.st.indeg G q = 0 ∧
+      (∀ v, v ≠ q → red.D v < red.st.indeg G v) ∧ (∀ v, v ≠ q → 0 < red.st.indeg G v) := by
+  obtain ⟨q, h1, h2, h3, h4, h5, h6, -⟩ :=
+    ewd_orientation_certificate G hG hint fuel Dv opt r red (cover_of_connected G hG hc hint) h hr
+  exact ⟨q, h1, h2, h3, h4, h5, h6⟩
 
 end CF.C09
